@@ -22,17 +22,27 @@ def _summary(net):
             "m": {m: enc.arr(getattr(net, m)()) for m in MEASURES}}
 
 
-def _observe(net, S, directed):
-    from pyunicorn.climate import ClimateNetwork
+def _make(kind, S, directed, **kw):
+    """kind "plain": ClimateNetwork on the 3/4-node grid (nodes 1 and 2 are ~1.4 degrees apart, all other pairs
+    >= 30 degrees); kind "ccn": CoupledClimateNetwork with two 2-node layers on the equator, longitudes
+    (0, 40) and (41, 80): nodes 2 and 3 are 1 degree apart, all other pairs >= 39 degrees."""
+    from pyunicorn.core import GeoGrid
+    from pyunicorn.climate import ClimateNetwork, CoupledClimateNetwork
+    if kind == "ccn":
+        g1 = GeoGrid(np.arange(4.0), np.array([0.0, 0.0]), np.array([0.0, 40.0]), silence_level=3)
+        g2 = GeoGrid(np.arange(4.0), np.array([0.0, 0.0]), np.array([41.0, 80.0]), silence_level=3)
+        return CoupledClimateNetwork(g1, g2, S.copy(), directed=bool(directed), silence_level=3, **kw)
+    return ClimateNetwork(_grid(len(S)), S.copy(), directed=bool(directed), silence_level=3, **kw)
+
+
+def _observe(net, S, directed, kind="plain"):
     o = {"exc": "", "twin": {}}
     try:
         o.update(_summary(net))
         thr = net.threshold()
         o["thr"] = UNKNOWN if thr is None else enc.num(thr)
         o["nl"] = int(bool(net.non_local()))
-        twin = ClimateNetwork(_grid(len(S)), S.copy(), threshold=net.threshold(),
-                              non_local=bool(net.non_local()), directed=bool(directed),
-                              silence_level=3)
+        twin = _make(kind, S, directed, threshold=net.threshold(), non_local=bool(net.non_local()))
         o["twin"] = _summary(twin)
     except Exception as ex:
         o["exc"] = type(ex).__name__
@@ -40,20 +50,20 @@ def _observe(net, S, directed):
 
 
 def run_case(c):
-    from pyunicorn.climate import ClimateNetwork
+    kind = c.get("kind", "plain")
     S = enc.represent(np.array(c["S4"], dtype=float) / 4.0, c["case"])[0]
     ct = c["ctor"]
     kw = {ct["by"]: ct["n"] / ct["d"]}
     events = [{"op": "construct", "by": ct["by"], "n": ct["n"], "d": ct["d"], "nl": ct["nl"]}]
     try:
-        net = ClimateNetwork(_grid(len(S)), S.copy(), non_local=bool(ct["nl"]),
-                             directed=bool(c["directed"]), silence_level=3, **kw)
+        net = _make(kind, S, c["directed"], non_local=bool(ct["nl"]), **kw)
     except Exception as ex:
         events.append({"op": "observe", "obs": {"exc": "init:" + type(ex).__name__, "twin": {}}})
         rec = dict(c)
         rec["events"] = events
+        rec["near"] = []
         return rec
-    events.append(_observe(net, S, c["directed"]))
+    events.append(_observe(net, S, c["directed"], kind))
     for s in c["steps"]:
         exc = ""
         try:
@@ -66,12 +76,14 @@ def run_case(c):
         except Exception as ex:
             exc = type(ex).__name__
         events.append(s)
-        ob = _observe(net, S, c["directed"])
+        ob = _observe(net, S, c["directed"], kind)
         if exc:
             ob["obs"]["exc"] = s["op"] + ":" + exc
         events.append(ob)
     rec = dict(c)
     rec["events"] = events
+    # the pairs of spatially close nodes (1-based), from the coordinates the harness gave the grid(s)
+    rec["near"] = [[2, 3], [3, 2]] if kind == "ccn" else [[1, 2], [2, 1]]
     return rec
 
 
@@ -131,7 +143,10 @@ def main(ctx):
         "densities k/12, non_local on/off (sequence chosen per matrix from its content).  After every step the "
         "object and a fresh twin are observed; TLC replays the trace through ClimateSM.  non-trivial = >=1 setter step")
     ctx.extra["scope"] = open(os.path.join(os.path.dirname(__file__), "..", "spec", cfg + ".cfg")).read().split()
-    recs = ctx.run_cases("props.c09.run_case", cases)
+    # the same behaviours on a CoupledClimateNetwork (4-node matrices: two layers of two nodes)
+    ccn = [dict(c, case="ccn_" + c["case"], kind="ccn") for c in cases if len(c["S4"]) == 4]
+    ctx.extra["coupled_climate_network_cases"] = len(ccn)
+    recs = ctx.run_cases("props.c09.run_case", cases + ccn)
     ctx.validate("Val_C09", "Val_C09", recs, nontrivial=_nontrivial)
     # data-driven subclasses: ObjectSM histories (depth 2 quick / 3 thorough) of the tsonis and hilbert families
     from props import c01
